@@ -323,15 +323,15 @@ theorem outcomeJ_props (c0 : RQJ.Config) (i : Fin N) (J : Bool) : ∀ (vs : List
     rw [put_l1_node, put_applied, put_pend] at this
     simpa [proposeN, gateSeq_cons, List.append_assoc] using this
 
-/-- the `Match` of ids without a `Progress` forgotten -/
-def forgetN (c : RQJ.Config) (n : Node1 N) : Node1 N := { n with matchI := fun j => if hasProg c j then n.matchI j else 0 }
+/-- the `Match` of the ids `p` does not keep forgotten -/
+def forgetN (p : Fin N → Bool) (n : Node1 N) : Node1 N := { n with matchI := fun j => if p j then n.matchI j else 0 }
 
 theorem applyOneJ_eq (c0 : RQJ.Config) (i : Fin N) (n : Node1 N) (a p : Nat) :
     applyOneJ c0 i ⟨n, a, p⟩ =
       if confAt n.log (a + 1) = true then
         (if n.role = .leader ∧ hasProg (cfgAt c0 n.log (a + 1)) i = true ∧ RQJ.isLearnerPr (cfgAt c0 n.log (a + 1)) (nid i) = false
-         then ⟨maybeCommitJ (cfgAt c0 n.log (a + 1)) (forgetN (cfgAt c0 n.log (a + 1)) n), a + 1, p⟩
-         else ⟨forgetN (cfgAt c0 n.log (a + 1)) n, a + 1, p⟩)
+         then ⟨maybeCommitJ (cfgAt c0 n.log (a + 1)) (forgetN (keepsProg c0 n.log a) n), a + 1, p⟩
+         else ⟨forgetN (keepsProg c0 n.log a) n, a + 1, p⟩)
       else ⟨n, a + 1, p⟩ := rfl
 
 /-- one more entry applied: `applyOne`, then (conf change only) `forget` and, on a leader that keeps its `Progress`, `maybeCommit` under the new configuration -/
@@ -344,14 +344,14 @@ theorem outcomeJ_applyOne (c0 : RQJ.Config) (s : SysJ N) (i : Fin N) (h : s.appl
   rw [applyOneJ_eq]
   by_cases hconf : confAt (s.l1.nodes i).log (s.applied i + 1) = true
   · rw [if_pos hconf]
-    have st2 : OutcomeJ c0 s i ⟨forgetN (cfgAt c0 (s.l1.nodes i).log (s.applied i + 1)) (s.l1.nodes i), s.applied i + 1, s.pend i⟩ [] := by
+    have st2 : OutcomeJ c0 s i ⟨forgetN (keepsProg c0 (s.l1.nodes i).log (s.applied i)) (s.l1.nodes i), s.applied i + 1, s.pend i⟩ [] := by
       refine OutcomeJ.chain0 st1 fun net1 _ => ?_
       exact outcomeJ_of_step (net' := net1)
         (StepJ.forget (s.put i ⟨s.l1.nodes i, s.applied i + 1, s.pend i⟩ net1) i
-          (fun j => if hasProg (cfgAt c0 (s.l1.nodes i).log (s.applied i + 1)) j then (s.l1.nodes i).matchI j else 0)
+          (fun j => if keepsProg c0 (s.l1.nodes i).log (s.applied i) j then (s.l1.nodes i).matchI j else 0)
           (fun j => by
             rw [put_l1_node]
-            by_cases hp : hasProg (cfgAt c0 (s.l1.nodes i).log (s.applied i + 1)) j = true
+            by_cases hp : keepsProg c0 (s.l1.nodes i).log (s.applied i) j = true
             · left; simp [hp]
             · right; simp [hp]))
         (by simp [SysJ.setNode, SysJ.put, upd1_upd1, updN_updN, forgetN]) (fun _ h => h) (fun _ h => by cases h)
@@ -359,7 +359,7 @@ theorem outcomeJ_applyOne (c0 : RQJ.Config) (s : SysJ N) (i : Fin N) (h : s.appl
         RQJ.isLearnerPr (cfgAt c0 (s.l1.nodes i).log (s.applied i + 1)) (nid i) = false
     · rw [if_pos hl]
       refine OutcomeJ.chain0 st2 fun net1 _ => ?_
-      have := outcomeJ_maybeCommit c0 (s.put i ⟨forgetN (cfgAt c0 (s.l1.nodes i).log (s.applied i + 1)) (s.l1.nodes i), s.applied i + 1, s.pend i⟩ net1) i
+      have := outcomeJ_maybeCommit c0 (s.put i ⟨forgetN (keepsProg c0 (s.l1.nodes i).log (s.applied i)) (s.l1.nodes i), s.applied i + 1, s.pend i⟩ net1) i
         (by rw [put_l1_node]; exact hl.1)
       rw [put_l1_node, put_applied, put_pend, cfg_put] at this
       exact this
